@@ -217,6 +217,12 @@ def handle (op : String) (j : Json) : Except String Json := do
     let ss ← a.toList.mapM stmtOfJson
     let p := Expand.expandFlow ss
     pure (Json.mkObj [("prog", Json.arr (p.map primToJson).toArray), ("closed", Closed.closed p)])
+  | "pathsafe" =>
+    -- the proved path-level checker on a real primitive program
+    let a ← (← j.getObjVal? "prog").getArr?
+    let p ← a.toList.mapM primOfJson
+    let S := Closed.explore p 6000 [Closed.startHead] [Closed.startHead]
+    pure (Json.mkObj [("safe", Closed.closedUnder p S), ("states", Json.num (JsonNumber.fromNat S.length))])
   | "witness" =>
     -- the witness program of the open finding 2.x:scope-reopened (Theorems/C12.lean)
     pure (Json.mkObj [("prog", Json.arr (Closed.whenElseInLoop.map (primToJsonWith id)).toArray)])
